@@ -21,6 +21,8 @@ pub enum Ev {
     X { r: u8 },
     /// migrate replica r to worker thread th (0 = the run's own thread)
     M { r: u8, th: u8 },
+    /// restore replica r from replica `src` with `Clone::clone_from` (same spec only)
+    C { r: u8, src: u8 },
 }
 
 pub const TAGS: &[&str] = &["clean", "dup", "swap", "corrupt", "spike", "extra_prefix", "silent"];
@@ -36,11 +38,12 @@ impl Ev {
             Ev::F { r } => 4 + 16 * (*r as u64),
             Ev::X { r } => 5 + 16 * (*r as u64),
             Ev::M { r, th } => 6 + 16 * (*r as u64) + 256 * (*th as u64),
+            Ev::C { r, src } => 7 + 16 * (*r as u64) + 256 * (*src as u64),
         }
     }
     pub fn replica(&self) -> u8 {
         match *self {
-            Ev::D { r, .. } | Ev::L { r } | Ev::O { r, .. } | Ev::F { r } | Ev::X { r } | Ev::M { r, .. } => r,
+            Ev::D { r, .. } | Ev::L { r } | Ev::O { r, .. } | Ev::F { r } | Ev::X { r } | Ev::M { r, .. } | Ev::C { r, .. } => r,
         }
     }
     /// one compact string per event, e.g. "D 0 3ff0000000000000 0 (1)" = deliver bits to replica 0, fault tag 0
@@ -52,6 +55,7 @@ impl Ev {
             Ev::F { r } => format!("F {}", r),
             Ev::X { r } => format!("X {}", r),
             Ev::M { r, th } => format!("M {} {}", r, th),
+            Ev::C { r, src } => format!("C {} {}", r, src),
         })
     }
     fn from_json(v: &Value) -> Result<Ev, String> {
@@ -69,6 +73,7 @@ impl Ev {
             "F" => Ev::F { r: u(1)? },
             "X" => Ev::X { r: u(1)? },
             "M" => Ev::M { r: u(1)?, th: u(2)? },
+            "C" => Ev::C { r: u(1)?, src: u(2)? },
             _ => return Err(format!("unknown event {}", t)),
         })
     }
@@ -78,7 +83,8 @@ impl Ev {
 #[derive(Clone, Debug, PartialEq)]
 pub enum Feed {
     Lit(Vec<f64>),
-    Gen { seed: u64, shape: u8, len: usize, scale: f64, positive: bool },
+    /// `quant` > 0: values are rounded to multiples of it (keeps exact-arithmetic runs on a dyadic grid)
+    Gen { seed: u64, shape: u8, len: usize, scale: f64, positive: bool, quant: f64 },
 }
 
 impl Feed {
@@ -91,9 +97,15 @@ impl Feed {
     pub fn materialise(&self) -> Vec<f64> {
         match self {
             Feed::Lit(v) => v.clone(),
-            Feed::Gen { seed, shape, len, scale, positive } => {
+            Feed::Gen { seed, shape, len, scale, positive, quant } => {
                 let mut r = Rng::new(*seed);
-                crate::feed::gen_shape(&mut r, *shape, *len, *scale, *positive)
+                let mut v = crate::feed::gen_shape(&mut r, *shape, *len, *scale, *positive);
+                if *quant > 0.0 {
+                    for x in v.iter_mut() {
+                        *x = (*x / *quant).round() * *quant;
+                    }
+                }
+                v
             }
         }
     }
@@ -103,9 +115,10 @@ impl Feed {
                 "lit_bits": v.iter().map(|x| format!("{:016x}", x.to_bits())).collect::<Vec<_>>(),
                 "lit": v,
             }),
-            Feed::Gen { seed, shape, len, scale, positive } => json!({
+            Feed::Gen { seed, shape, len, scale, positive, quant } => json!({
                 "gen": {"seed": format!("{:016x}", seed), "shape": shape, "len": len,
-                         "scale_bits": format!("{:016x}", scale.to_bits()), "scale": scale, "positive": positive}
+                         "scale_bits": format!("{:016x}", scale.to_bits()), "scale": scale, "positive": positive,
+                         "quant_bits": format!("{:016x}", quant.to_bits()), "quant": quant}
             }),
         }
     }
@@ -126,6 +139,7 @@ impl Feed {
                 len: g["len"].as_u64().ok_or("gen.len")? as usize,
                 scale: f64::from_bits(u64::from_str_radix(g["scale_bits"].as_str().ok_or("gen.scale_bits")?, 16).map_err(|e| e.to_string())?),
                 positive: g["positive"].as_bool().unwrap_or(false),
+                quant: g["quant_bits"].as_str().and_then(|s| u64::from_str_radix(s, 16).ok()).map(f64::from_bits).unwrap_or(0.0),
             });
         }
         Err("feed: neither lit_bits nor gen".into())
@@ -253,6 +267,7 @@ impl Scenario {
                 Ev::F { r } => ev.push_str(&format!("F{} ", r)),
                 Ev::X { r } => ev.push_str(&format!("X{} ", r)),
                 Ev::M { r, th } => ev.push_str(&format!("M{}->t{} ", r, th)),
+                Ev::C { r, src } => ev.push_str(&format!("C{}<-{} ", r, src)),
             }
         }
         if self.events.len() > 40 {
@@ -263,7 +278,7 @@ impl Scenario {
             "trees": self.trees.iter().map(|t| t.show()).collect::<Vec<_>>(),
             "feeds": self.feeds.iter().map(|f| match f {
                 Feed::Lit(v) => json!({"len": v.len(), "head": v.iter().take(8).collect::<Vec<_>>()}),
-                Feed::Gen{seed, shape, len, scale, positive} => json!({"gen_seed": format!("{:x}", seed), "shape": crate::feed::SHAPES[*shape as usize % crate::feed::SHAPES.len()], "len": len, "scale": scale, "positive": positive}),
+                Feed::Gen{seed, shape, len, scale, positive, ..} => json!({"gen_seed": format!("{:x}", seed), "shape": crate::feed::SHAPES[*shape as usize % crate::feed::SHAPES.len()], "len": len, "scale": scale, "positive": positive}),
             }).collect::<Vec<_>>(),
             "events": ev,
             "ints": self.ints.iter().map(|(k, v)| format!("{}={}", k, v)).collect::<Vec<_>>(),
